@@ -77,7 +77,7 @@ def r_priority(m, rep, R='R1.1'):
               'operator<(a,b) is %s, expected %s' % (canon(got) if got else '?', canon(spec)))
     r_item_methods(m, rep, R)
     d = m.locals[m.agenda]
-    t = (d.type or '').replace(' ', '')
+    t = (d.dtype or d.type or '').replace(' ', '')
     ok = t in ('std::priority_queue<parsing::cell_item>',
                'std::priority_queue<parsing::cell_item,std::vector<parsing::cell_item>,std::less<parsing::cell_item>>')
     rep.check(ok, R, _w(d.line), 'agenda:type',
@@ -154,8 +154,10 @@ def r_best(m, rep, R='R1.2b'):
     rep.check(okfill, R, _w(m.init_loop.line), 'scored:fill',
               'word t\'s queue holds (TAG(t,c), c) for every c in [0, num_tags)', msg)
     d = m.locals[m.scored]
-    t = (d.type or '').replace(' ', '')
-    ok = 'std::priority_queue<scored_category>' in t or 'std::priority_queue<std::pair<float,unsignedint>>' in t
+    t = (d.dtype or d.type or '').replace(' ', '')
+    pair = 'std::pair<float,unsignedint>'
+    ok = t in ('std::vector<std::priority_queue<%s,std::vector<%s>,std::less<%s>>>' % (pair, pair, pair),
+               'std::vector<std::priority_queue<%s>>' % pair)
     rep.check(ok, R, _w(d.line), 'scored:type',
               'candidate queues are max-heaps of (score, category) pairs: %s' % d.type,
               'candidate queues have type %s' % d.type)
@@ -194,6 +196,7 @@ def r_best(m, rep, R='R1.2b'):
         rep.check(ok, R, _w(op.line, 'matrix::operator()'), 'matrix:index',
                   'matrix(r,c) is data[r*columns + c]',
                   'matrix(r,c) is %s' % (canon(p[0][2]) if p and p[0][2] else '?'))
+    r_utils_argmax(m, rep, R)
     am = cxx.method(mat, 'argmax')
     p = Paths(am).paths
     pr = cxx.params_of(am)[0].name
@@ -203,6 +206,42 @@ def r_best(m, rep, R='R1.2b'):
     rep.check(ok, R, _w(am.line, 'matrix::argmax'), 'matrix:argmax',
               'matrix::argmax(r) scans exactly row r', 'matrix::argmax(r) is %s'
               % (canon(p[0][2]) if p and p[0][2] else '?'))
+
+
+def r_utils_argmax(m, rep, R):
+    """utils::argmax returns the index of a maximum of [from, to): starts from lowest(), updates on <= or <, scans every element."""
+    fn = m.decls['utils::argmax']
+    env = cxx.Env(fn)
+    pr = [p.name for p in cxx.params_of(fn)]
+    w = _w(fn.line, 'utils::argmax')
+    body = cxx.body_of(fn)
+    decl = {d.name: (term(env.init_of(d), env) if env.init_of(d) is not None else None) for d in body.find('VarDecl')}
+    whiles = body.find('WhileStmt')
+    rets = [term(r.kids[0], env) for r in body.find('ReturnStmt') if r.kids]
+    ok = len(whiles) == 1 and len(rets) == 1 and rets[0][0] == 'var'
+    detail = 'shape'
+    if ok:
+        idxv = rets[0][1]
+        wh = whiles[0]
+        okcond = canon(term(wh.kids[0], env)) in (canon(('bin', '!=', V(pr[0]), V(pr[1]))),)
+        ifs = wh.find('IfStmt')
+        incs = {strip(n.kids[0]).ref for n in wh.find('UnaryOperator') if n.op == '++' and not any(a.kind == 'IfStmt' for a in n.ancestors() if a is not wh and a in list(wh.walk()))}
+        ok = okcond and len(ifs) == 1
+        if ok:
+            c = term(ifs[0].kids[0], env)
+            maxv = None
+            cur = ('deref', V(pr[0]))
+            for cand in decl:
+                if canon(c) in (canon(('bin', '<=', V(cand), cur)), canon(('bin', '<', V(cand), cur))):
+                    maxv = cand
+            assigns = {canon(term(a.kids[0], env)): canon(term(a.kids[1], env)) for a in ifs[0].kids[1].find('BinaryOperator') if a.op == '='}
+            counter = [v for v in decl if v not in (maxv, idxv)]
+            ok = maxv is not None and len(counter) == 1 and assigns == {idxv: counter[0], maxv: canon(cur)} and \
+                {pr[0], counter[0]} <= incs and decl.get(counter[0]) == LIT(0) and \
+                decl.get(maxv) is not None and decl[maxv][0] == 'call' and decl[maxv][1] == 'lowest'
+            detail = 'test %s, updates %s, start %s' % (canon(c), assigns, show(decl.get(maxv)) if maxv else None)
+    rep.check(ok, R, w, 'utils::argmax', 'argmax scans [from, to) from the lowest value and returns the position of a maximum (%s)' % detail,
+              'utils::argmax does not return the position of a maximum: %s' % detail)
 
 
 def _for_bounds(m_env, loop):
